@@ -1,0 +1,18 @@
+//go:build verif
+// +build verif
+
+package mtproto
+
+// Verification hooks (build tag verif): named yield points of the send path and the receive
+// loop. The conformance harness in /verif installs VerifGate to hold and release goroutines
+// in a chosen order and to observe internal steps. Without the tag verifGate is an empty
+// function (verif_gate_off.go).
+
+// VerifGate, when set, is called at every yield point with the point's name and its arguments.
+var VerifGate func(point string, args ...interface{})
+
+func verifGate(point string, args ...interface{}) {
+	if g := VerifGate; g != nil {
+		g(point, args...)
+	}
+}
